@@ -4,9 +4,10 @@ Bridges between the model's byte helpers / calendar and the reference codec `Mod
 import Dblib.Model.ValueSpec
 import Dblib.Lemmas.ValueBytes
 import Dblib.Lemmas.ValueCal
+import Dblib.Lemmas.ValueText
 
 namespace Dblib.Lemmas.ValueSpec
-open Dblib Dblib.Value Dblib.AseTime Dblib.Lemmas.ValueBytes Dblib.Lemmas.ValueCal
+open Dblib Dblib.Value Dblib.AseTime Dblib.Lemmas.ValueBytes Dblib.Lemmas.ValueCal Dblib.Lemmas.ValueText
 
 /-! ### little endian -/
 
@@ -120,5 +121,17 @@ theorem rataDie_1900 : Spec.rataDie 1900 1 1 = 693596 := by decide +kernel
 
 theorem tickOf_eq (us : Nat) : Spec.tickOf us = (3 * us + 5000) / 10000 := by
   simp only [Spec.tickOf]; omega
+
+/-! ### unitext -/
+
+theorem utf16_eq (c : Nat) (h : IsScalar c) : Spec.utf16 c = utf16Enc c := by
+  obtain ⟨hs, hgt⟩ := scalar_flags c h
+  simp only [Spec.utf16, utf16Enc, hs, Bool.false_or, decide_eq_true_eq, if_neg hgt]
+
+/-- the reference UTF-16LE layout is the byte layout of the model's code units -/
+theorem unitext_eq (cps : List Nat) (h : ∀ c ∈ cps, IsScalar c) : Spec.unitext cps = unitsLE (utf16EncAll cps) := by
+  have e1 : cps.map Spec.utf16 = cps.map utf16Enc := List.map_congr_left (fun c hc => utf16_eq c (h c hc))
+  have e2 : (fun n => Spec.uintLE 2 n) = leEncode 2 := by funext n; rw [leEncode_eq_uintLE]
+  simp only [Spec.unitext, unitsLE, utf16EncAll, e1, e2]
 
 end Dblib.Lemmas.ValueSpec
